@@ -1,6 +1,6 @@
 """C08 Downlink local state equals the fold of what it received."""
 import collections
-from mirlib import AnchorMissing, describe_call, describe_operand, dom_guards, guards, _suffix_match
+from mirlib import describe_rvalue, AnchorMissing, describe_call, describe_operand, dom_guards, guards, _suffix_match
 from rules.common import aggregates, owner_def, panic_sites, where
 
 META = {
@@ -397,4 +397,39 @@ def run(ctx):
         for arm in sorted(EXPECT):
             r.check(tabs["value"].get(arm, set()) == tabs["map"].get(arm, set()), "hosted-value=hosted-map/%s" % arm, "-", "value and map downlinks make the same transition on %s" % arm,
                     "on %s the value downlink sets %s, the map downlink %s" % (arm, sorted(tabs["value"].get(arm, set())), sorted(tabs["map"].get(arm, set()))))
+
+    with ctx.rule("C08.R8", "T10", "client downlinks: the session state follows the notifications (transition table per notification and current state)", floor=8) as r:
+        EXPECT = {
+            "value": {("Linked", None, "Linked"), ("Synced", "Linked", "Synced"), ("Event", "Linked", "Linked"), ("Event", "Synced", "Synced"), ("Unlinked", None, "Unlinked")},
+            "map": {("Linked", None, "Linked"), ("Synced", "Linked", "Synced"), ("Unlinked", None, "Unlinked")},
+        }
+        for kind, want in sorted(EXPECT.items()):
+            b = ctx.saw(dl.fn(suffix="task::%s::on_read::{closure#0}" % kind))
+            got = set()
+            for i, j, p_, rv, line in b.assigns():
+                if rv[0] == "agg" and "adt" in rv[1] and rv[1]["adt"].endswith("task::%s::State" % kind):
+                    g = dom_guards(b, i)
+                    note = [l for d, l, _ in g if d == "disc(notification)"]
+                    cur = [l for d, l, _ in g if d == "disc(state)"]
+                    if not note:
+                        continue
+                    got.add((note[-1], cur[-1] if cur else None, rv[1]["variant"]))
+            # a transition guarded by the current state matches an expectation that does not care about it
+            def matches(t, w):
+                return t[0] == w[0] and t[2] == w[2] and (w[1] is None or t[1] == w[1])
+            for w in sorted(want, key=str):
+                r.check(any(matches(t, w) for t in got), "client-%s/%s%s->%s" % (kind, w[0], ("@" + w[1]) if w[1] else "", w[2]), where(b),
+                        "on %s%s the state becomes %s" % (w[0], (" while " + w[1]) if w[1] else "", w[2]),
+                        "on %s%s the client %s downlink no longer moves to %s (transitions found: %s)" % (w[0], (" while " + w[1]) if w[1] else "", kind, w[2], sorted(got, key=str)))
+            for t in sorted(got, key=str):
+                r.check(any(matches(t, w) for w in want), "client-%s/no-other-transition/%s%s->%s" % (kind, t[0], ("@" + t[1]) if t[1] else "", t[2]), where(b), "a documented transition",
+                        "on %s (state %s) the client %s downlink moves to %s: e.g. an event must not make an unsynced downlink Synced, and Linked must not keep the old session's state" % (t[0], t[1], kind, t[2]))
+            # a new session starts empty
+            for i, j, p_, rv, line in b.assigns():
+                if rv[0] == "agg" and "adt" in rv[1] and rv[1]["adt"].endswith("task::%s::State" % kind) and rv[1]["variant"] == "Linked":
+                    g = dom_guards(b, i)
+                    if any(d == "disc(notification)" and l == "Linked" for d, l, _ in g):
+                        d_ = describe_rvalue(b, rv)
+                        r.check("None" in d_ or "new()" in d_ or "default()" in d_, "client-%s/Linked/starts-empty" % kind, b.loc(line), "a new session starts from an empty state (%s)" % d_[:50],
+                                "a linked notification keeps state from the previous session: %s" % d_[:80])
 
